@@ -1010,13 +1010,15 @@ func c08Unit(c *ctx) {
 			var step int64
 			switch c.rng.Intn(10) {
 			case 0:
-				step = cur // zero-length read
+				step = cur // a repeated step (zero-length read): refused by the guard
 			case 1:
-				step = cur - 1 - int64(c.rng.Intn(5)) // below matchStep: negative make
+				step = cur - 1 - int64(c.rng.Intn(5)) // below matchStep: refused by the guard (negative make without it)
 			case 2:
 				step = int64(len(u.dst)) + 1 + int64(c.rng.Intn(3)) // beyond the file
 			case 3:
-				step = []int64{1 << 20, 1 << 27, -(1 << 40), -1}[c.rng.Intn(4)]
+				// around the block size: cur+B is the largest step still read (then EOF), cur+B+1 is refused
+				bs := trzsz.VerifPrefixHashStep()
+				step = []int64{1 << 20, 1 << 27, -(1 << 40), -1, cur + bs, cur + bs + 1, bs, bs + 1, 1 << 62}[c.rng.Intn(9)]
 			default:
 				step = cur + 1 + int64(c.rng.Intn(12))
 			}
@@ -1057,6 +1059,8 @@ func c08Unit(c *ctx) {
 			if !bytes.HasPrefix(u.dst, after) {
 				u.result += " (content is not a prefix of the old content)"
 			}
+		case strings.Contains(errStr, "Invalid hash step"):
+			u.result = "invalid acks=" + as
 		case strings.HasPrefix(errStr, "panic:"):
 			u.result = "panic acks=" + as
 		case strings.Contains(errStr, "EOF"):
@@ -1073,7 +1077,7 @@ func c08Unit(c *ctx) {
 		if len(u.model) > 0 {
 			ms = strings.Join(u.model, ",")
 		}
-		c.emit(len(u.msgs) > 1, "resume_recv", u.result, hx(u.dst), ms)
+		c.emit(len(u.msgs) > 1, "resume_recv", u.result, strconv.FormatInt(trzsz.VerifPrefixHashStep(), 10), hx(u.dst), ms)
 	}
 	// sender's ack reader
 	for i := 0; i < c.pick(200, 2000); i++ {
